@@ -131,6 +131,9 @@ func variants() []variant {
 			inLevels: []int{1}, batches: []int{1}, announce: 45, quick: true},
 		{name: "cos-continuous", res: base, btp: bootstrapping.ParametersLiteral{LogN: ip(10), LogMessageRatio: mr(10), Mod1Type: mod1.CosContinuous, DoubleAngle: ip(3), Mod1Degree: ip(63)}, inLevels: []int{0}, batches: []int{1}, stages: true},
 		{name: "sin-arcsine", res: base, btp: bootstrapping.ParametersLiteral{LogN: ip(10), LogMessageRatio: mr(10), Mod1Type: mod1.SinContinuous, DoubleAngle: ip(0), Mod1Degree: ip(127), Mod1InvDegree: ip(7), K: ip(14)}, inLevels: []int{0}, batches: []int{1}, stages: true},
+		// a level shared by two matrices followed by another level (Levels [2, 1]) on both transforms
+		{name: "dft-grouped", res: base, btp: bootstrapping.ParametersLiteral{LogN: ip(10), LogMessageRatio: mr(10),
+			SlotsToCoeffsFactorizationDepthAndLogScales: [][]int{{30, 30}, {60}}}, inLevels: []int{0}, batches: []int{1}, stages: true, quick: true},
 		{name: "dft-split", res: base, btp: bootstrapping.ParametersLiteral{LogN: ip(10), LogMessageRatio: mr(10),
 			CoeffsToSlotsFactorizationDepthAndLogScales: [][]int{{56}, {56}}, SlotsToCoeffsFactorizationDepthAndLogScales: [][]int{{39}, {39}, {39}, {39}}}, inLevels: []int{0}, batches: []int{1}, stages: true},
 	}
@@ -303,6 +306,11 @@ func runVariant(w *tr.Writer, prog *int, v variant) {
 	judge := func(e *event, ct *rlwe.Ciphertext, want []complex128) {
 		e.OutLvl = ct.Level()
 		e.ScaleOK = ct.Scale.Cmp(params.DefaultScale()) == 0
+		if ct.Level() > params.MaxLevel() {
+			// a result above the residual chain cannot even be decrypted with the residual parameters
+			e.PrecBits = -100
+			return
+		}
 		have := make([]complex128, len(want))
 		if err := ecd.Decode(dec.DecryptNew(ct), have); err != nil {
 			e.Err, e.Msg = true, err.Error()
@@ -465,10 +473,16 @@ func dftInverse(w *tr.Writer, prog *int) {
 	sk := kg.GenSecretKeyNew()
 	ecd := ckks.NewEncoder(params)
 	for _, logSlots := range []int{params.LogMaxSlots()} {
-		for _, levels := range [][2][]int{{{1, 1}, {1, 1}}, {{1}, {1, 1, 1}}, {{1, 1, 1}, {1}}, {{1, 1, 1}, {1, 1}}} {
+		for _, levels := range [][2][]int{{{1, 1}, {1, 1}}, {{1}, {1, 1, 1}}, {{1, 1, 1}, {1}}, {{1, 1, 1}, {1, 1}}, {{2, 1}, {1, 1}}, {{1, 2}, {1, 1}}, {{1, 1}, {2, 1}}, {{1, 1}, {1, 2}}, {{2}, {2}}, {{2, 2}, {1}}} {
 			*prog++
 			e := event{Ev: "dftinv", Prog: *prog, LogSlots: logSlots, LogN: params.LogN(), LogScale: params.LogDefaultScale(), ProvGal: []uint64{}, AdvGal: []uint64{}, ReqGal: []uint64{}}
 			e.Name = fmt.Sprintf("c2s levels %v, s2c levels %v", levels[0], levels[1])
+			for _, lv := range append(append([]int{}, levels[0]...), levels[1]...) {
+				if lv > 1 {
+					// matrices sharing a prime are encoded at its root: the floor follows their precision
+					e.LogScale = 30
+				}
+			}
 			err, pan, msg := guarded(func() error {
 				c2sLit := dft.MatrixLiteral{Type: dft.HomomorphicEncode, Format: dft.RepackImagAsReal, LogSlots: logSlots, LevelQ: params.MaxLevelQ(), LevelP: params.MaxLevelP(), Levels: levels[0]}
 				d := c2sLit.Depth(true)
